@@ -28,6 +28,7 @@ G2_INV = {v: k for k, v in G2.items()}
 CC = {"CCNOT": ops.ClassicalCNOT, "CCZ": ops.ClassicalCZ, "MCR": ops.MeasurementCNOTandReset}
 CC_INV = {v: k for k, v in CC.items()}
 NAMES1 = list(G1)
+SHARED_LISTS = None  # set to a dict by a run that wants wrappers of equal gate sequences to share their list object
 
 
 def make_op(spec):
@@ -42,6 +43,11 @@ def make_op(spec):
             noise = nm.DepolarizingNoise(0.1)
             noise.noise_parameters["After gate"] = spec[4] == "noise_after"
             return ops.OneQubitGateWrapper([G1[n] for n in spec[1]], register=spec[3], reg_type=spec[2], noise=noise)
+        if SHARED_LISTS is not None:
+            # the caller builds every wrapper of the same gate sequence from ONE list object (as user code that keeps a
+            # list like [Hadamard, Phase] around does)
+            lst = SHARED_LISTS.setdefault(tuple(spec[1]), [G1[n] for n in spec[1]])
+            return ops.OneQubitGateWrapper(lst, register=spec[3], reg_type=spec[2])
         return ops.OneQubitGateWrapper([G1[n] for n in spec[1]], register=spec[3], reg_type=spec[2])
     if k == "g2":
         return G2[spec[1]](control=spec[3], control_type=spec[2], target=spec[5], target_type=spec[4])
